@@ -21,10 +21,13 @@ def gen_lines(ctx):
     # one multi-octet character at every alignment against the boundary
     # (U+FEFF is the code point codecs treat specially: "utf-8-sig" drops it at the start of a decoded chunk;
     #  U+2028 / U+0085 are line separators for str.splitlines)
-    for ch in ("é", "€", "\U0001F600", "\ufeff", "\u2028", "\x85"):
+    #  combining marks, joiners and variation selectors are the code points text-shaping-aware code treats specially)
+    for ch in ("é", "€", "\U0001F600", "\ufeff", "\u2028", "\x85", "\u0301", "\u05b0", "\u20d7", "\u200d", "\ufe0f", "\u200f"):
         for pre in range(0, 160 if big else 82):
             out.append(("align", "a" * pre + ch + "b" * 5))
             out.append(("align-run", "a" * pre + ch * 40))
+            if pre % 3 == 0:
+                out.append(("align-2octet-pad", "ä" * (pre // 2) + "e" + ch + ch + "b" * 90))
     # runs of multi-octet characters
     for ch in ("é", "€", "\U0001F600", "é\U0001F600", "a€"):
         for n in (1, 18, 19, 24, 25, 36, 37, 38, 74, 75, 76, 150):
